@@ -183,7 +183,7 @@ func errMessage(r *rand.Rand, class string) string {
 	case "nonascii":
 		return "échec “" + randUnicode(r, 4) + "” ✓"
 	case "ctl":
-		return "line1\nline2\ttab \"quoted\" \\ back" + randASCII(r, 2)
+		return "line1\nline2\ttab \"quoted\" \\ back\x7f del \x01 soh \x1f us" + randASCII(r, 2)
 	}
 	panic("unknown message class " + class)
 }
@@ -1167,7 +1167,11 @@ func (rn *run) respond(w http.ResponseWriter, form, codec string, herr int) {
 				}
 			} else {
 				for k := range endHdr {
-					h.Add("Trailer", k)
+					if end.Style == "declaredlc" {
+						h.Add("Trailer", strings.ToLower(k)) // field names are case-insensitive
+					} else {
+						h.Add("Trailer", k)
+					}
 				}
 				afterBody = func() {
 					for k, v := range endHdr {
